@@ -76,9 +76,22 @@ def ks_check(pid, tier, seed, replay=None):
         missing = [n for n in need if cov[n] == 0]
         if missing:
             raise Inconclusive(f"vacuous run: no event {missing}")
+        # sequential rotation programs over one key set (spec/KeyRotation.tla, rules C13.rotation.*): rotation, withdrawal of every key,
+        # keys published without key id, rp.SkipRemoteCheck
+        import tables
+        rot = tables.table_run(pid, "KeyRotation", "tbl-keyrotation", tier, seed, wd, ("C13.",),
+                               lambda o: "rotation:" + ">".join((st["op"][0] + (",".join(st["set"]) if st["op"] == "publish" else st["by"] + "/" + st["kid"])) for st in o["c"]["steps"])
+                               + ":init=" + ",".join(o["c"]["init"]) + (":skip" if o["c"].get("skip") else ""),
+                               need=lambda o: [f"rp:{x['v']}:dl{x['dl']}" for x in o["o"]["rp"] if x["v"] != "-"], label="key rotation programs (sequential)")
+        for k in ("rp:accept:dl0", "rp:accept:dl1", "rp:reject:dl0", "rp:reject:dl1"):
+            if not rot["coverage"].get(k) and not rot.get("crashed"):
+                raise Inconclusive(f"vacuous rotation table: no observation {k}")
+        for v in rot["viols"]:
+            viols.append(dict(rule=v["rule"], line=0, run="rotation-" + str(v["id"]), op="program", args=v["case"], mode="table:" + v["signature"].split(":", 1)[1][:160],
+                              module="KeyRotation", id=v["id"], case=v["case"]))
         new, known = report(pid, viols, lambda v: f"{v['rule']}:{v['mode']}:{v['op']}",
                             lambda v: dict(rule=v["rule"], line=v["line"], run=v["run"], op=v["op"], args=v["args"], mode=v["mode"]),
-                            wd, ["trace.ndjson", "viol.ndjson", "sched.ndjson"], seed, tier)
+                            wd, ["trace.ndjson", "viol.ndjson", "sched.ndjson"], seed, tier, extra_save=tables.write_cases)
         sample = [dict(op=e["op"], args=e["args"]) for e in trace[1:25]]
         write_evidence(pid, tier, seed, "model_checking", dict(
             states=sum(d["states"] for d in design), transitions=sum(d["transitions"] for d in design),
@@ -87,6 +100,7 @@ def ks_check(pid, tier, seed, replay=None):
             rule="one trace = one key-set instance (a gate-replayed TLC schedule or a free-running stress run under -race); events are the hook points of remoteKeySet",
             design=design, tlc_schedules_replayed=len(behs) - len(stuck), schedules_stuck=len(stuck), stress_runs=sz["stress"],
             event_coverage={f"{k[0]}:{k[1]}": v for k, v in sorted(cov.items())}, monitor_lines=lines, known_findings_seen=known,
+            rotation_table=dict(design=rot["design"], cases_executed_on_real_code=rot["cases"], rule_failures=len(rot["viols"]), coverage=rot["coverage"]),
             exhaustive=False),
             time.time() - t0, new,
             assumptions=["key ids are not reused for different key material across JWKS versions",
@@ -102,6 +116,11 @@ def ks_check(pid, tier, seed, replay=None):
 
 def ks_replay(pid, wd, path):
     import shutil
+    if os.path.exists(os.path.join(path, "KeyRotation.cases.ndjson")):
+        import tables
+        rc = tables.table_replay(pid, wd, path, [("KeyRotation", "tbl-keyrotation", ("C13.",))])
+        if rc:
+            return rc
     sched = os.path.join(path, "sched.ndjson")
     binp = go_build(wd, race=True)
     if os.path.exists(sched):
